@@ -5,13 +5,16 @@
   (l,c) inside the text, never `.diverge`/`.fuel`, and the lexer's item stream is fully consumed or drained.
   Proved: the repaired lexer state machine terminates on every input and its stream always ends with an
   EOF or Error item (`C07_lex_total` — this is the goroutine's termination: every state consumes input or
-  stops); the model's parser outcome is never `.diverge` (`C07_parse_no_diverge`).
+  stops); the parser is total (`C07_parse_total`: for every byte string and every statement check the
+  outcome is a tree or a located error — never `.diverge`, never `.fuel`: each step that recurses has received
+  at least one item, so the fuel `parse` supplies, the number of items plus two, cannot run out); the
+  reported line lies inside the text (`C07_error_line_in_text`).
   Not proved (held by the correspondence streams yfuzz: all texts ≤3/4 bytes over a 16-byte alphabet, every
-  prefix of generated modules, random bytes; watchdog + goroutine dump on the real code): that the parser's
-  fuel always suffices (`.fuel` unreachable) and the line/column bounds; that the Go runtime reaps the
-  drained goroutine is observed, not proved.
+  prefix of generated modules, random bytes; watchdog + goroutine dump on the real code): the column bound;
+  that the Go runtime reaps the drained goroutine is observed, not proved.
 -/
 import YV.Proofs.YLex
+import YV.Proofs.YTotal
 namespace YV.C07
 open YV YV.Y
 
@@ -30,6 +33,22 @@ theorem C07_parse_no_diverge_partial (chk : Stmt → Bool) (input : Bytes) :
   rcases r with ⟨e, n⟩ | ⟨st, s⟩
   · cases e <;> trivial
   · trivial
+
+/-- **totality of parsing**: every input, every statement check: a root or an error with a position -/
+theorem C07_parse_total (chk : Stmt → Bool) (input : Bytes) :
+    (∃ root taken total, parse chk true input = .ok root taken total) ∨
+    (∃ l c taken total, parse chk true input = .err l c taken total) := parse_total chk input
+
+/-- the line an error names is a line of the text: between 1 and the number of line feeds plus one -/
+theorem C07_error_line_in_text (input : Bytes) (pos : Nat) :
+    1 ≤ (lineCol input pos).1 ∧ (lineCol input pos).1 ≤ 1 + (input.filter (· = 10)).length := by
+  unfold lineCol
+  simp only []
+  refine ⟨by omega, ?_⟩
+  have : ((input.take pos).filter (· = 10)).length ≤ (input.filter (· = 10)).length := by
+    conv => rhs; rw [← List.take_append_drop pos input]
+    rw [List.filter_append, List.length_append]; omega
+  omega
 
 /-- the defect that was repaired, as a theorem about the unrepaired state machine: a text that ends inside
     an unquoted word makes it spin forever (parse.Parse("x", "module", nil) never returned) -/
